@@ -222,7 +222,16 @@ class GateDomain(Domain):
             return [("ok", NONE, state)]
         if name == "isinstance":
             return [("ok", TOP, state)]
+        if name.startswith("self._") and name.count(".") == 1 and self.prog is not None:
+            # other private helpers of the class (e.g. an extracted legacy (server, port) normaliser) are inlined
+            m = self.prog.method("HashClient", name[5:], required=False)
+            if m is not None:
+                res = self.inline(node, m, args, kwargs, state)
+                if res is not None:
+                    return res
         return [("ok", TOP, state)]
+
+    global_keys = ("ev", "rearmed", "deleted", "scanned")
 
     def for_next(self, node, itval, state):
         return [(TOP, state)]
